@@ -1,6 +1,6 @@
 SPECIFICATION Spec
 CONSTANTS MaxChunks = 4
- ChunkSizes = {1, 2, 5}
+ ChunkSizes = {0, 1, 2, 5}
  Caps = {1, 3, 100}
  Profiles = {"flush+test", "c:checked"}
 INVARIANT ExitZeroImpliesComplete
